@@ -112,7 +112,9 @@ def run(m, rep, tier):
 
     # ---- L5 --------------------------------------------------------------------------
     l5 = rep.rule('L5', 'resize: forced rehash, then flip of the clean bit, then pending geometry; new buckets empty and clean', floor=1)
-    f = mod.fn('cstl_hash_resize')
+    from ..hashmodel import focus_hash
+    fmod = focus_hash(m)
+    f = fmod.fn('cstl_hash_resize')
     if f is None or f.decl:
         l5.undecided('cstl_hash_resize', 'not found')
     else:
@@ -513,6 +515,10 @@ def check_resize_order(m, f, rule):
     # every flip must be followed, on every path to a return, by recording a pending function: a flipped clean
     # bit with no rehash pending makes every bucket look dirty now and clean after the next flip
     rh_set = [s for s in f.all_insts() if s.op == 'store' and fld(f, s) == 'bucket.rh.hash' and const_int(s.o[0]) != 0]
+    # the very first resize adopts the geometry directly (no bucket is in use yet, so a flipped bit harms nothing)
+    pv0 = Prover(f)
+    rh_set += [s for s in f.all_insts() if s.op == 'store' and fld(f, s) == 'bucket.hash' and const_int(s.o[0]) != 0 and
+               any(op == 'eq' and y == 'null' and is_load_of(f, x, 'bucket.hash') for (op, x, y) in pv0.facts_at(s))]
     for fl in flips:
         for r in f.returns():
             if _reach_avoiding(f, fl, r, rh_set):
